@@ -140,8 +140,11 @@ class Program:
             cands = [x for x in cands if x[1] == trait]
             # distinguish  PartialEq<&str> for String  from PartialEq<String> : compare trait generic args when both present
             if len(cands) > 1 and trait_full and "<" in trait_full:
-                want = re.sub(r"\s+", "", trait_full[trait_full.index("<"):])
-                ex = [x for x in cands if x[3] and "<" in x[3] and re.sub(r"\s+", "", x[3][x[3].index("<"):]).replace("'_", "") == want.replace("'_", "")]
+                def nrm(t):
+                    t = re.sub(r"\s+", "", t[t.index("<"):]).replace("'_", "")
+                    return re.sub(r"\b\w+::", "", t)
+                want = nrm(trait_full)
+                ex = [x for x in cands if x[3] and "<" in x[3] and nrm(x[3]) == want]
                 if ex: cands = ex
         elif inherent_only:
             cands = [x for x in cands if x[1] is None] or cands
